@@ -1005,7 +1005,7 @@ _DEFAULTS = dict(min_units=1, max_units=4, max_depth=4, max_dies=40, versions=(2
                  partial_units=True, refs=True, share_abbrev=0.5, sibling=0.35, strp=0.5,
                  lone_null=0.15, odd_codes=0.3, cross_unit_chains=False, max_chain=4,
                  llvm_safe=True, v4_block_locations=False, extras=0.3, refused=0.0, cu_imports=0.0, dup_attrs=0.0, implicit_consts=0.0, const_blocks=0.0, empty_ranges=0.0,
-                 rich_ops=0.0, loclists=0.0, type_units=0.0, mixed_enums=0.0, vendor_forms=0.0, both_refs=0.1, dangling_refs=0.0,
+                 rich_ops=0.0, loclists=0.0, type_units=0.0, mixed_enums=0.0, vendor_forms=0.0, both_refs=0.1, dangling_refs=0.0, more_locations=0.0,
                  const_forms=("data1", "data2", "data4", "data8", "sdata", "udata"))
 
 _WORDS = ["foo", "bar", "baz", "qux", "main", "x", "y", "i", "T", "value", "next", "node",
@@ -1577,6 +1577,15 @@ class ForestGen:
             # a vendor attribute in the user range: read as unsigned
             d.add(0x2005 if self._chance(0.5) else 0x200b, r.choice(["data1", "data2", "data4", "udata", "sdata"]),
                   r.choice([0, 1, 0x7f, 0x80, 0xff]) if True else 0)
+        if self._chance(self.opts["more_locations"]):
+            # the other attributes of the location class: an expression too, in the unit's location form
+            name = {"subprogram": ["return_addr", "static_link", "vtable_elem_location", "segment"],
+                    "structure_type": ["data_location"], "base_type": ["data_location"], "pointer_type": ["use_location", "data_location"],
+                    "variable": ["segment"], "member": ["use_location"]}.get(tn)
+            if name:
+                nm = r.choice(name)
+                if not d.has(nm):
+                    self._add_location(d, nm)
         if self._chance(self.opts["vendor_forms"]):
             # forms whose code does not fit a byte (0x1f01, 0x1f02): stored as a two-byte ULEB128 in the abbreviation
             if self._chance(0.5):
